@@ -319,9 +319,14 @@ func checkCrash(rec *Recorded, img crashImage, prop string) []Violation {
 		mode = "async"
 	}
 	_ = asyncTag
+	phase := fmt.Sprintf("object-change-persisted=%s|schema-committed=%s", objPersisted, schemaCommitted)
+	if img.K >= len(rec.Log) {
+		// no call was interrupted: the process stopped after the last acknowledgement
+		phase = "after-acknowledgement"
+	}
 	fail := func(sym, what string) {
 		viol = append(viol, Violation{
-			Sig:  fmt.Sprintf("%s|%s|%s|object-change-persisted=%s|schema-committed=%s", prop, sym, mode, objPersisted, schemaCommitted),
+			Sig:  fmt.Sprintf("%s|%s|%s|%s", prop, sym, mode, phase),
 			What: fmt.Sprintf("%s\n  crash during call %d (%s) after %d of %d file mutations (last persisted: %s; first lost: %s, cut=%d)", what, img.Call, opName, img.K, len(rec.Log), last, window, img.Cut),
 			Cfg:  cfg, Path: rec.Path,
 			More: map[string]interface{}{"crash_index": img.K, "cut": img.Cut},
